@@ -343,5 +343,5 @@ class TableRow(Mapping[str, object]):
 def _int_or_zero(arg: object) -> int:
     try:
         return to_int(arg)
-    except ValueError:
+    except (ValueError, TypeError, OverflowError):
         return 0
